@@ -40,15 +40,18 @@ def plan(tier, seed):
     if tier == 'quick':
         return [{'kind': 'docs', 'vocab': 'default', 'count': 1200, 'depth': 4, 'name': 'ddoc%d' % k} for k in range(3)] + \
                [{'kind': 'docs', 'vocab': 'custom', 'count': 1200, 'depth': 4, 'name': 'cdoc%d' % k, 'cb': 40 * k} for k in range(3)] + \
-               [{'kind': 'soup', 'count': 5000, 'name': 'soup%d' % k} for k in range(4)]
+               [{'kind': 'soup', 'count': 5000, 'name': 'soup%d' % k} for k in range(4)] + \
+               [{'kind': 'nlargs', 'count': 3000, 'name': 'nlargs%d' % k} for k in range(2)]
     return [{'kind': 'docs', 'vocab': 'default', 'count': 8000, 'depth': 4 + k % 3, 'name': 'ddoc%d' % k} for k in range(8)] + \
            [{'kind': 'docs', 'vocab': 'custom', 'count': 8000, 'depth': 4 + k % 3, 'name': 'cdoc%d' % k, 'cb': 300 * k} for k in range(8)] + \
-           [{'kind': 'soup', 'count': 40000, 'name': 'soup%d' % k} for k in range(8)]
+           [{'kind': 'soup', 'count': 40000, 'name': 'soup%d' % k} for k in range(8)] + \
+           [{'kind': 'nlargs', 'count': 30000, 'name': 'nlargs%d' % k} for k in range(4)]
 
 
 def floors(tier):
     return {'evaluations': 15000, 'distinct_nontrivial': 4000, 'callbacks_checked': 200000,
-            'none_placeholders_seen': 2000, 'histkeys:callback': 9, 'trees_with_none_body_or_args': 50}
+            'none_placeholders_seen': 2000, 'histkeys:callback': 9, 'trees_with_none_body_or_args': 50,
+            'empty_nodelist_arguments_seen': 500, 'nonempty_nodelist_arguments_seen': 500}
 
 
 def setup(rec):
@@ -113,6 +116,10 @@ class Ref(object):
                 self.none_seen += 1
                 out.append(None)
             else:
+                if isinstance(x, N.LatexNodeList):
+                    # a node-list valued argument: visited like any other child, even when empty
+                    self.rec.monitor('empty_nodelist_arguments_seen' if len(x) == 0
+                                     else 'nonempty_nodelist_arguments_seen')
                 out.append(self.visit(x))
         return out
 
@@ -265,6 +272,17 @@ def shrink(v):
 
 def run_shard(desc, rec):
     rng = rng_for(desc)
+    if desc['kind'] == 'nlargs':
+        atoms = ['\\flag', '\\flag*', '\\ttl{H}', '\\ttl{H}\\label{a}', '\\ttl', '\\full{a}', '\\full', '\\full x', '\\emb',
+                 '\\emb^a', '\\emb_b^c', ' x', 'y', ' ', '{', '}', '$', '\\begin{envf}', '\\begin{envf}+', '\\end{envf}',
+                 '\\alpha', '\n\n', '%c\n', '\\label{z}', '\\unk']
+        for i in range(desc['count']):
+            s = ''.join(rng.choice(atoms) for _ in range(rng.randint(1, 7)))
+            rec.case()
+            if i % 500 == 0:
+                rec.sample(s)
+            check_case({'s': s, 'ctx': {'vocab': 'nlargs'}, 'tolerant': bool(i % 2), 'subtrees': i % 7 == 0}, rec)
+        return
     if desc['kind'] == 'soup':
         for i, s in enumerate(work.soups(rng, desc['count'])):
             rec.case()
